@@ -128,6 +128,8 @@ def frame_digest(df: pd.DataFrame, ignore_columns=()) -> str:
     cols = [c for c in df.columns if c not in ignore_columns]
     h.update(repr(list(cols)).encode())
     h.update(repr(list(df.index.names)).encode())
+    h.update(repr([str(x) for x in (df.index.dtypes if isinstance(df.index, pd.MultiIndex) else [df.index.dtype])]).encode())  # e.g. the time zone of a time index
+    h.update(repr([str(df[c].dtype) for c in cols]).encode())
     for idx, row in zip(df.index, df[cols].itertuples(index=False, name=None)):
         h.update(repr(idx).encode())
         for v in row:
